@@ -97,7 +97,7 @@ def load_patch_corpus(props=None):
     return out
 
 
-ALL_PROPS = [f"C{i:02d}" for i in range(1, 21) if i != 7]
+ALL_PROPS = [f"C{i:02d}" for i in range(1, 21)]
 
 
 def _run_patch(args):
